@@ -66,7 +66,12 @@ def work(task):
     (T, K) = task
     acc = Acc()
     for (dn, X0) in datasets(T):
-        for shift in itertools.product((0.0, 1.0, 100.0), repeat=X0.shape[1]):
+        shifts = list(itertools.product((0.0, 1.0, 100.0), repeat=X0.shape[1]))
+        # large offsets (exact in binary64 on integer data): one-pass formulas cancel here
+        for big in (1e6, 2.5e8):
+            for j in range(X0.shape[1]):
+                shifts.append(tuple(big if i == j else 0.0 for i in range(X0.shape[1])))
+        for shift in shifts:
             if dn != "a" and sum(1 for s in shift if s) > 1:
                 continue
             X = X0 + np.array(shift)[None, :]
@@ -113,7 +118,7 @@ def run(ctx):
     for r in ctx.pmap(work, tasks):
         ctx.take(r)
     L = 20
-    menu = [("k2a", [L], 1), ("k2seed", [L], 0)]
+    menu = [("k2a", [L], 1), ("k2seed", [L], 0), ("k2m1", [L], 0)]
     if ctx.thorough:
         menu += [("k2b", [L], 1), ("k3a", [L], 1), ("k3b", [L], 0), ("k2mat", [L], 0), ("k2w3", [L], 0)]
     ps = ml.e2_plans(ctx, menu, MONS, conform=False)
@@ -122,7 +127,7 @@ def run(ctx):
     ctx.cov["rule"] = (
         "(a) every labelling of T' in 4..6 (thorough 8) windows into K in {2,3} non-empty clusters x data sets "
         "{a (3 sensors), b (2 sensors), equal column means} x per-sensor translations over {0,1,100} (all 27 for a, "
-        "single-sensor for the others): reported == definition with the per-column centroid (1e-9 relative) and "
+        "single-sensor for the others) and single-sensor translations by 1e6 and 2.5e8: reported == definition with the per-column centroid (1e-9 relative) and "
         "unchanged under translation; a mismatch that equals the same formula with the scalar mean of all entries "
         "is the listed known finding, anything else a violation. (b) every converged enumerated main-loop run with "
         "all clusters non-empty. non-trivial = cases with non-zero within-cluster dispersion")
